@@ -31,6 +31,8 @@ type InstInfo struct {
 	// schema facts from /repo's own compile package: package base name -> normalised struct name -> fields
 	structs  map[string]map[string][]schemaField
 	kinds    map[string]map[string]string
+	typedefs map[string]map[string]*tdesc
+	enums    map[string]map[string]bool
 	presence int
 }
 
@@ -42,6 +44,23 @@ type schemaField struct {
 	Default  bool   `json:"default"`
 	Redact   bool   `json:"redact"`
 	NoLog    bool   `json:"nolog"`
+	T        *tdesc `json:"t"`
+}
+
+// tdesc: a Thrift type with typedefs resolved (K: bool i8 i16 i32 i64 double
+// string binary enum struct list set map).
+type tdesc struct {
+	K    string `json:"k"`
+	Name string `json:"name"`
+	File string `json:"file"`
+	Elem *tdesc `json:"elem"`
+	Key  *tdesc `json:"key"`
+	Val  *tdesc `json:"val"`
+}
+
+type schemaTypedef struct {
+	Name string `json:"name"`
+	T    *tdesc `json:"t"`
 }
 
 type schemaStruct struct {
@@ -74,6 +93,60 @@ type field struct {
 	Default  bool   ` + "`json:\"default\"`" + `
 	Redact   bool   ` + "`json:\"redact\"`" + `
 	NoLog    bool   ` + "`json:\"nolog\"`" + `
+	T        *tdesc ` + "`json:\"t\"`" + `
+}
+type tdesc struct {
+	K    string ` + "`json:\"k\"`" + `
+	Name string ` + "`json:\"name\"`" + `
+	File string ` + "`json:\"file\"`" + `
+	Elem *tdesc ` + "`json:\"elem\"`" + `
+	Key  *tdesc ` + "`json:\"key\"`" + `
+	Val  *tdesc ` + "`json:\"val\"`" + `
+}
+type tdef struct {
+	Name string ` + "`json:\"name\"`" + `
+	T    *tdesc ` + "`json:\"t\"`" + `
+}
+
+func fbase(f string) string {
+	return strings.ReplaceAll(strings.TrimSuffix(filepath.Base(f), ".thrift"), "-", "_")
+}
+
+func desc(t compile.TypeSpec) *tdesc {
+	t = compile.RootTypeSpec(t)
+	switch s := t.(type) {
+	case *compile.BoolSpec:
+		return &tdesc{K: "bool"}
+	case *compile.I8Spec:
+		return &tdesc{K: "i8"}
+	case *compile.I16Spec:
+		return &tdesc{K: "i16"}
+	case *compile.I32Spec:
+		return &tdesc{K: "i32"}
+	case *compile.I64Spec:
+		return &tdesc{K: "i64"}
+	case *compile.DoubleSpec:
+		return &tdesc{K: "double"}
+	case *compile.StringSpec:
+		return &tdesc{K: "string"}
+	case *compile.BinarySpec:
+		return &tdesc{K: "binary"}
+	case *compile.EnumSpec:
+		return &tdesc{K: "enum", Name: s.Name, File: fbase(s.File)}
+	case *compile.StructSpec:
+		n := s.Annotations["go.name"]
+		if n == "" {
+			n = s.Name
+		}
+		return &tdesc{K: "struct", Name: n, File: fbase(s.File)}
+	case *compile.ListSpec:
+		return &tdesc{K: "list", Elem: desc(s.ValueSpec)}
+	case *compile.SetSpec:
+		return &tdesc{K: "set", Elem: desc(s.ValueSpec)}
+	case *compile.MapSpec:
+		return &tdesc{K: "map", Key: desc(s.KeySpec), Val: desc(s.ValueSpec)}
+	}
+	return &tdesc{K: "?"}
 }
 type strct struct {
 	Name   string  ` + "`json:\"name\"`" + `
@@ -86,13 +159,23 @@ func has(a compile.Annotations, k string) bool { _, ok := a[k]; return ok }
 
 func main() {
 	out := map[string][]strct{}
-	for _, f := range os.Args[1:] {
-		m, err := compile.Compile(f)
-		if err != nil {
-			continue
+	tds := map[string][]tdef{}
+	ens := map[string][]string{}
+	seen := map[string]bool{}
+	var visit func(m *compile.Module)
+	visit = func(m *compile.Module) {
+		if seen[m.ThriftPath] {
+			return
 		}
-		base := strings.TrimSuffix(filepath.Base(f), ".thrift")
+		seen[m.ThriftPath] = true
+		base := strings.TrimSuffix(filepath.Base(m.ThriftPath), ".thrift")
 		for _, t := range m.Types {
+			if td, ok := t.(*compile.TypedefSpec); ok {
+				tds[base] = append(tds[base], tdef{Name: td.Name, T: desc(td)})
+			}
+			if en, ok := t.(*compile.EnumSpec); ok {
+				ens[base] = append(ens[base], en.Name)
+			}
 			s, ok := t.(*compile.StructSpec)
 			if !ok {
 				continue
@@ -103,12 +186,22 @@ func main() {
 				st.Kind = "union"
 			}
 			for _, fl := range s.Fields {
-				st.Fields = append(st.Fields, field{ID: int(fl.ID), Name: fl.Name, Required: fl.Required, Code: int(fl.Type.TypeCode()), Default: fl.Default != nil, Redact: has(fl.Annotations, "go.redact"), NoLog: has(fl.Annotations, "go.nolog")})
+				st.Fields = append(st.Fields, field{ID: int(fl.ID), Name: fl.Name, Required: fl.Required, Code: int(fl.Type.TypeCode()), Default: fl.Default != nil, Redact: has(fl.Annotations, "go.redact"), NoLog: has(fl.Annotations, "go.nolog"), T: desc(fl.Type)})
 			}
 			out[base] = append(out[base], st)
 		}
+		for _, inc := range m.Includes {
+			visit(inc.Module)
+		}
 	}
-	json.NewEncoder(os.Stdout).Encode(out)
+	for _, f := range os.Args[1:] {
+		m, err := compile.Compile(f)
+		if err != nil {
+			continue
+		}
+		visit(m)
+	}
+	json.NewEncoder(os.Stdout).Encode(map[string]interface{}{"structs": out, "typedefs": tds, "enums": ens})
 }
 `
 
@@ -142,6 +235,7 @@ var quickCorpusByProp = map[string]map[string]bool{
 	"C05": {"structs.thrift": true, "unions.thrift": true, "enums.thrift": true, "exceptions.thrift": true, "wide.thrift": true},
 	"C15": {"structs.thrift": true, "exceptions.thrift": true, "redact.thrift": true},
 	"C13": {"containers.thrift": true},
+	"C14": {"structs.thrift": true, "enums.thrift": true, "unions.thrift": true, "exceptions.thrift": true, "typedefs.thrift": true, "containers.thrift": true, "equals.thrift": true},
 }
 
 func prepareInst(repo, verif, tier, prop string) (*InstInfo, error) {
@@ -224,8 +318,33 @@ func prepareInst(repo, verif, tier, prop string) (*InstInfo, error) {
 		targs = append(targs, filepath.Join(corpus, b))
 	}
 	if out, err := runIn(ii.dir, "go", append([]string{"run", "./cmd/schemadump"}, targs...)...); err == nil {
-		var dump map[string][]schemaStruct
-		if json.Unmarshal([]byte(out), &dump) == nil {
+		var full struct {
+			Structs  map[string][]schemaStruct  `json:"structs"`
+			Typedefs map[string][]schemaTypedef `json:"typedefs"`
+			Enums    map[string][]string        `json:"enums"`
+		}
+		if json.Unmarshal([]byte(out), &full) == nil {
+			dump := full.Structs
+			ii.typedefs = map[string]map[string]*tdesc{}
+			ii.enums = map[string]map[string]bool{}
+			for base, l := range full.Typedefs {
+				pk := strings.ReplaceAll(base, "-", "_")
+				if ii.typedefs[pk] == nil {
+					ii.typedefs[pk] = map[string]*tdesc{}
+				}
+				for _, td := range l {
+					ii.typedefs[pk][normName(td.Name)] = td.T
+				}
+			}
+			for base, l := range full.Enums {
+				pk := strings.ReplaceAll(base, "-", "_")
+				if ii.enums[pk] == nil {
+					ii.enums[pk] = map[string]bool{}
+				}
+				for _, n := range l {
+					ii.enums[pk][normName(n)] = true
+				}
+			}
 			for base, sts := range dump {
 				pk := strings.ReplaceAll(base, "-", "_")
 				if ii.structs[pk] == nil {
@@ -341,6 +460,9 @@ func (ii *InstInfo) addContracts(p *Program, cs *ContractSet, prop string) error
 	}
 	if prop == "C13" {
 		return ii.addAllocContracts(p, cs, prop)
+	}
+	if prop == "C14" {
+		return ii.addEqualsContracts(p, cs, prop)
 	}
 	var fns []*ssa.Function
 	for f := range p.allFns {
